@@ -70,6 +70,12 @@ def gen_base(rng, k, mode):
     raise KeyError(k)
 
 
+# Sign and payload of a NaN *result* are not specified by IEEE-754 and depend on operand order / instruction
+# selection (the vectorised body of a loop and its scalar epilogue may differ): every comparison treats all NaNs
+# alike.  Everything else (signed zeros, infinities, denormals, every finite bit) is compared bit-wise.
+_NAN = float("nan")
+
+
 class T:
     """One element/scalar type."""
     __slots__ = ("name", "base", "n", "make", "flat", "isfloat", "cls", "gen")
@@ -89,7 +95,7 @@ class T:
         """bit-exact, hashable representation"""
         vals = self.flat(obj)
         if self.isfloat:
-            return struct.pack("<%dd" % len(vals), *vals)
+            return struct.pack("<%dd" % len(vals), *[_NAN if v != v else v for v in vals])
         return tuple(int(v) for v in vals)
 
 
@@ -197,6 +203,23 @@ for dim in (2, 3):
         _reg(T(name, base, 2 * dim, (lambda v, cls=cls, vt=vt, dim=dim: cls(vt.make(v[:dim]), vt.make(v[dim:]))),
                (lambda o, vt=vt: vt.flat(o.min()) + vt.flat(o.max())), gen=bgen))
 
+# FrustumTest: an opaque owner (no accessors): generated from a frustum and a camera transform, no state to compare
+for suf, base in (("f", "f32"), ("d", "f64")):
+    ftc, fc, mt = getattr(imath, "FrustumTest" + suf, None), getattr(imath, "Frustum" + suf, None), TYPES.get("M44" + suf)
+    if ftc is None or fc is None or mt is None:
+        continue
+
+    def ftgen(t, rng, mode, ftc=ftc, fc=fc, mt=mt):
+        near = 0.5 + rng.range(0, 8) / 4.0
+        far = near + 1.0 + rng.range(0, 400) / 4.0
+        w, h = 0.25 + rng.range(0, 16) / 8.0, 0.25 + rng.range(0, 16) / 8.0
+        fr = fc(near, far, -w, w, h, -h, bool(rng.below(2)))
+        vals = [(1.0 if i // 4 == i % 4 else 0.0) for i in range(16)]
+        vals[12], vals[13], vals[14] = rng.range(-8, 8) / 2.0, rng.range(-8, 8) / 2.0, rng.range(-8, 8) / 2.0
+        return ftc(fr, mt.make(vals))
+
+    _reg(T("FrustumTest" + suf, base, 0, (lambda v: None), (lambda o: []), gen=ftgen))
+
 # array types ---------------------------------------------------------------------------------------
 ARRAYS = {}   # array type name -> element T
 for an, en in (("BoolArray", "_b"), ("SignedCharArray", "_i8"), ("UnsignedCharArray", "_u8"), ("ShortArray", "_i16"),
@@ -236,7 +259,7 @@ def pack_array(tn, a):
         fl = t.flat
         for i in range(n):
             vals.extend(fl(a[i]))
-        return struct.pack("<%dd" % len(vals), *vals)
+        return struct.pack("<%dd" % len(vals), *[_NAN if v != v else v for v in vals])
     out = []
     fl = t.flat
     for i in range(n):
